@@ -124,6 +124,81 @@ theorem expand_matches_direct_counter :
     direct .pdist [2, 1, 3, 0, 2, 1] [2, 1, 3, 2, 0, 0] = .hamming 6 (1/2) 3 := by
   decide +kernel
 
+/-! ### additions of the audit: the CURRENT duplicate test, end-to-end symmetry of a pair
+
+Since repo commit 259ec35c1 `_PairwiseDistance.run` aliases `j` to `i` only if the index arrays are equal
+(`runR` / `distanceMatrixR`; this is the variant the harness correspondence runs on the current tree —
+`run` / `distanceMatrix` above mirror the code BEFORE that commit). -/
+
+/-- swapping the two sequences of a pair transposes the (tabulated) count matrix -/
+theorem countsOf_swap (s₁ s₂ : List Int) : countsOf s₂ s₁ = tr (countsOf s₁ s₂) := by
+  have hf : ofCounts (fill (s₂.zip s₁)) = tr (ofCounts (fill (s₁.zip s₂))) := by
+    funext i j; rw [zip_swap_int]; exact counts_swap _ i j
+  unfold countsOf
+  rw [hf]
+  funext i j
+  by_cases h : i < 4 ∧ j < 4
+  · rw [memo_apply _ i j h.1 h.2]; unfold tr; rw [memo_apply _ j i h.2 h.1]
+  · rw [memo_out _ i j (by omega)]; unfold tr; rw [memo_out _ j i (by omega)]
+
+/-- **Every estimator is symmetric on a pair, end to end**: index arrays in, pre-log statistic out
+(`counts_swap` + `stat_symmetric` composed through the tabulation). -/
+theorem direct_symmetric (c : Calc) (s₁ s₂ : List Int) : direct c s₂ s₁ = direct c s₁ s₂ := by
+  unfold direct; rw [countsOf_swap]; exact (stat_symmetric c _).1
+
+example : direct .tn93 [2, 1, 3, 0, 2, 2, 1, 0, 3, 3] [2, 1, 3, 0, 3, 2, 0, 0, 3, 1] =
+    .tn93 10 (3/10) (3/11) (2/9) (4951/19800) (179/330) (79/180) (79/99) := by decide +kernel
+
+/-- CURRENT code, a sequence and its copy: all four cells are the literal zero -/
+theorem zero_on_identical_run_current (c : Calc) (s : List Int) :
+    distanceMatrixR c [s, s] = [[.zero, .zero], [.zero, .zero]] := by
+  have h : hasOffDiag (countsOf s s) = false :=
+    hasOffDiag_of_diagonal _ (countsOf_diagonal _ (zip_self_same s))
+  simp [distanceMatrixR, runR, outerStepR, innerStepR, expand, expandOne, expandName, cell, dictGet, dictSet,
+    List.range, List.range.loop, h]
+
+/-- CURRENT code, two sequences: the pipeline returns `directR` of the pair — the estimator of the pair's own
+count matrix when a difference was observed; the literal 0 for equal arrays (alias) and for unequal arrays
+without an observed difference; "invalid" when unequal arrays share no canonical column. -/
+theorem pair_matches_direct_current (c : Calc) (s₁ s₂ : List Int) :
+    distanceMatrixR c [s₁, s₂] = [[.zero, directR c s₁ s₂], [directR c s₁ s₂, .zero]] := by
+  unfold directR
+  by_cases h : hasOffDiag (countsOf s₁ s₂) = true
+  · simp [distanceMatrixR, runR, outerStepR, innerStepR, expand, cell, dictGet, dictSet,
+      List.range, List.range.loop, h]
+  · have h' : hasOffDiag (countsOf s₁ s₂) = false := by simpa using h
+    by_cases he : (s₁ == s₂) = true
+    · simp [distanceMatrixR, runR, outerStepR, innerStepR, expand, expandOne, expandName, cell, dictGet, dictSet,
+        List.range, List.range.loop, h', he]
+    · have he' : (s₁ == s₂) = false := by simpa using he
+      by_cases ht : 0 < total (countsOf s₁ s₂)
+      · simp [distanceMatrixR, runR, outerStepR, innerStepR, expand, cell, dictGet, dictSet,
+          List.range, List.range.loop, h', he', ht]
+      · simp [distanceMatrixR, runR, outerStepR, innerStepR, expand, cell, dictGet, dictSet,
+          List.range, List.range.loop, h', he', ht]
+
+-- the three non-trivial branches: a difference observed; 'AAAA----' vs '----CCCC' (nothing shared: invalid);
+-- 'ACGTNN' vs 'ACGTAC' (no difference observed, arrays differ: 0 without aliasing)
+example : directR .pdist [2, 1, 3, 0, 2, 1] [2, 1, 3, 2, 0, 0] = .hamming 6 (1/2) 3 := by decide +kernel
+example : directR .jc69 [2, 2, 2, 2, -9, -9, -9, -9] [-9, -9, -9, -9, 1, 1, 1, 1] = .invalid := by decide +kernel
+example : directR .pdist [2, 1, 3, 0, -9, -9] [2, 1, 3, 0, 2, 1] = .zero := by decide +kernel
+
+/-- the witness of `expand_matches_direct_counter` on the CURRENT code: every off-diagonal cell is the
+estimator of that pair alone (pair (1,2): 3 differences in 6 columns, p = 1/2; pair (0,1): literal 0) -/
+theorem expand_matches_direct_current_witness :
+    distanceMatrixR .pdist [[2, 1, 3, 0, -9, -9], [2, 1, 3, 0, 2, 1], [2, 1, 3, 2, 0, 0]] =
+      [[.zero, .zero, .hamming 4 (1/4) 1], [.zero, .zero, .hamming 6 (1/2) 3],
+       [.hamming 4 (1/4) 1, .hamming 6 (1/2) 3, .zero]] ∧
+    directR .pdist [2, 1, 3, 0, 2, 1] [2, 1, 3, 2, 0, 0] = .hamming 6 (1/2) 3 := by
+  decide +kernel
+
+/- FULL STATEMENT (not proved) for the current code: `expand_matches_direct_current`
+   ∀ c seqs a b, a < seqs.length → b < seqs.length → a ≠ b →
+     ((distanceMatrixR c seqs).getD a []).getD b .absent = directR c (seqs.getD a []) (seqs.getD b [])
+   Now expected to be TRUE (aliases are equal arrays, so an alias's pair statistics are the duplicate's), but the
+   induction over the two `foldl` loops, the `dupes` set and the `_expand` dictionary is not done; proved for two
+   sequences (`pair_matches_direct_current`) and checked on the former counter-example. -/
+
 /-! ## 2. neighbour joining -/
 section NJ
 open CogentModel.NJ
